@@ -2,6 +2,7 @@ INIT Init
 NEXT Next
 CONSTANTS
   Blocks = {"data", "tags", "meta", "cross", "seq", "seq3", "seqbig"}
+  Script <- NoScript
   T0 = 2000000043
   FutureSlots = 3
   TagShift = 100
